@@ -21,6 +21,7 @@ Definition restore_integrity_failure_removes_output := @restore_integrity_failur
 Definition no_false_ack := no_false_ack_thm.
 Definition l0_gapless := l0_gapless_thm.
 Definition pos_truthful := pos_truthful_thm.
+Definition snapshots_ignored := snapshots_ignored_thm.
 Definition catch_up := catch_up_thm.
 Definition compact_no_partial_publish := @compact_no_partial_publish_thm.
 Definition ack_means_in_sync := ack_means_in_sync_thm.
